@@ -34,12 +34,12 @@ PROPERTIES = ["FirstInsertionOrder", "CopyLaws", "AutoCreation", "Refines"]
 
 
 def constants(cls="ci", keys=None, steps=3, pairs=1, setvals=("i1", "i2", "list", "dict", "ldict", "llist", "dll"),
-              pairvals=("i1", "list"), factories=("None", "Dict"), adopt=False, mode="graph", bug="none"):
+              pairvals=("i1", "list"), factories=("None", "Dict"), adopt=False, mode="graph", bug="none", mixed=False):
     keys = keys or (KEYS_CI if cls == "ci" else KEYS_DOD)
     nk = len({k.lower() for k in keys})
     return {"Keys": set(keys), "Cls": cls, "MaxId": 6 * nk + 3 * pairs + 4, "MaxSteps": steps, "MaxPairs": pairs,
             "SetVals": set(setvals), "PairVals": set(pairvals), "Factories": set(factories),
-            "AdoptSet": "@{FALSE, TRUE}" if adopt else "@{FALSE}", "Mode": mode, "Bug": bug}
+            "AdoptSet": "@{FALSE, TRUE}" if adopt else "@{FALSE}", "Mode": mode, "Bug": bug, "Mixed": mixed}
 
 
 def graph_job(tag, **kw):
@@ -49,7 +49,7 @@ def graph_job(tag, **kw):
 
 
 def walk_job(tag, n, depth, seed, **kw):
-    cfg = tlc.cfg_text(constants=constants(mode="walk", steps=depth, adopt=True, **kw),
+    cfg = tlc.cfg_text(constants=constants(mode="walk", steps=depth, adopt=True, mixed=True, **kw),
                        invariants=INVARIANTS + ["EmitWalk"], properties=PROPERTIES)
     return dict(module="DictObj", cfg=cfg, tag=tag, workers=1, mode="simulate", simulate="num=%d" % n,
                 depth=depth + 1, seed=seed, timeout=3000, heap="2g")
@@ -199,6 +199,12 @@ def call(cls, d, op, hp, B):
         if n in ("Update", "Construct"):
             pairs = [(pk, materialise(cls, pv, hp, B)) for pk, pv in op["pairs"]]
             form = op["form"]
+            if form.endswith("+kw"):         # one call with a positional argument and keyword arguments
+                kw = dict((pk, materialise(cls, pv, hp, B)) for pk, pv in op["kw"])
+                pos = pairs if form == "pairs+kw" else dict(pairs)
+                if n == "Update":
+                    return d.update(pos, **kw), None
+                return C(C if op["f"] == "Dict" else None, pos, **kw), None
             if n == "Update":
                 if form == "pairs":
                     return d.update(pairs), None
@@ -259,7 +265,7 @@ def fresh(cls, factory):
 # ----------------------------------------------------------------------------- signatures, reproductions
 def key_class(pre_items, op):
     if op["name"] in ("Update", "Construct"):
-        ks = [k for k, _ in op["pairs"]]
+        ks = [k for k, _ in op["pairs"]] + [k for k, _ in op.get("kw", [])]
         dup = len({k.lower() for k in ks}) < len(ks)
         return "%s%s%s" % (op["form"], "-mixedcase" if any(k != k.lower() for k in ks) else "", "-dupfold" if dup else "")
     if op["name"] in ("Copy", "DeepCopy", "Pickle"):
@@ -308,7 +314,9 @@ def src(cls, e):
         return "d.setdefault(%r%s)" % (k, (", " + src_value(op["v"], hp)) if op["hasd"] else "")
     if n in ("Update", "Construct"):
         ps = "[%s]" % ", ".join("(%r, %s)" % (pk, src_value(pv, hp)) for pk, pv in op["pairs"])
-        arg = {"pairs": ps, "dict": "dict(%s)" % ps, "kwargs": "**dict(%s)" % ps}[op["form"]]
+        kws = "[%s]" % ", ".join("(%r, %s)" % (pk, src_value(pv, hp)) for pk, pv in op.get("kw", []))
+        arg = {"pairs": ps, "dict": "dict(%s)" % ps, "kwargs": "**dict(%s)" % ps, "pairs+kw": "%s, **dict(%s)" % (ps, kws),
+               "dict+kw": "dict(%s), **dict(%s)" % (ps, kws)}[op["form"]]
         if n == "Update":
             return "d.update(%s)" % arg
         return "%sC(%s, %s)" % ("d = " if op["adopt"] else "", "C" if op["f"] == "Dict" else "None", arg)
@@ -435,7 +443,7 @@ def model_violation(ck, name, r):
     return False
 
 
-NEGATIVE = {"popnofold": "Refines(PlainOD)", "shallowdeep": "CopyLaws", "movetoend": "FirstInsertionOrder",
+NEGATIVE = {"kwfirst": "Refines(PlainOD)", "popnofold": "Refines(PlainOD)", "shallowdeep": "CopyLaws", "movetoend": "FirstInsertionOrder",
             "nofoldstore": "KeysLowerUnique"}
 JVM = {"JAVA_TOOL_OPTIONS": "-XX:ParallelGCThreads=2 -XX:CICompilerCount=2"}      # several TLCs side by side
 
@@ -447,9 +455,15 @@ def plan(tier, seed):
             jobs.append(("graph", "ci", "h3p1-" + f, graph_job("c17_g_ci_h3_%s" % f, cls="ci", steps=3, pairs=1, factories=(f,),
                                                                setvals=("i1", "i2", "list", "ldict", "llist", "dll"))))
             jobs.append(("graph", "ci", "h2p2-" + f, graph_job("c17_g_ci_h2p2_%s" % f, cls="ci", steps=2, pairs=2,
-                                                               setvals=("i0", "dict", "llist"), factories=(f,))))
+                                                               setvals=("i0", "dict", "llist"), factories=(f,),
+                                                               pairvals=("i1", "list") if f == "None" else ("i2",))))
         jobs.append(("graph", "dod", "h3p1", graph_job("c17_g_dod", cls="dod", steps=3, pairs=1,
                                                        setvals=("i1", "list", "ldict", "llist"))))
+        # update / constructor called with a positional argument and keyword arguments in one call
+        jobs.append(("graph", "ci", "mixed-h2p1", graph_job("c17_g_ci_mixed", cls="ci", steps=2, pairs=1, mixed=True,
+                                                            keys={"a", "A", "b", "B"}, setvals=("i1",), pairvals=("i2", "list"))))
+        jobs.append(("graph", "dod", "mixed-h2p1", graph_job("c17_g_dod_mixed", cls="dod", steps=2, pairs=1, mixed=True,
+                                                             keys={"a", "b"}, setvals=("i1",), pairvals=("i2", "list"))))
         nw, nwd = 60, 20
     else:
         for f in ("None", "Dict"):
@@ -460,6 +474,11 @@ def plan(tier, seed):
             jobs.append(("graph", "ci", "4keys-" + f, graph_job("c17_g_ci_4k_%s" % f, cls="ci", steps=3, pairs=1, setvals=("i1", "llist"),
                                                                 keys=KEYS_CI | {"classes", "Classes"}, factories=(f,))))
         jobs.append(("graph", "dod", "h4p1", graph_job("c17_g_dod", cls="dod", steps=4, pairs=1, setvals=("i1", "list", "ldict", "llist"))))
+        for f in ("None", "Dict"):
+            jobs.append(("graph", "ci", "mixed-h3p1-" + f, graph_job("c17_g_ci_mixed_%s" % f, cls="ci", steps=3, pairs=1, mixed=True,
+                                                                     setvals=("i1",), pairvals=("i2", "list"), factories=(f,))))
+        jobs.append(("graph", "dod", "mixed-h3p1", graph_job("c17_g_dod_mixed", cls="dod", steps=3, pairs=1, mixed=True,
+                                                             setvals=("i1",), pairvals=("i2", "list"))))
         nw, nwd = 1000, 300
     nsplit = 3 if tier == "quick" else 6
     for i in range(nsplit):
@@ -469,7 +488,8 @@ def plan(tier, seed):
     # negative configs: deliberately wrong variants of the spec that TLC has to reject (non-vacuity of (M))
     for bug in NEGATIVE:
         jobs.append(("negative", "ci", bug, graph_job("c17_neg_%s" % bug, cls="ci", steps=3, pairs=1, bug=bug,
-                                                      keys={"a", "A", "layers", "LAYERS"}, setvals=("i1", "list"), pairvals=("i1",))))
+                                                      keys={"a", "A", "layers", "LAYERS"}, setvals=("i1", "list"), pairvals=("i1",),
+                                                      mixed=(bug == "kwfirst"))))
     for j in jobs:
         j[3]["env"] = JVM
     jobs.sort(key=lambda j: 0 if j[0] == "walk" else 1)        # the walks take longest: start them first
